@@ -33,7 +33,7 @@ def default_check_positions(v):
     return [p for p in pos if all(0 <= i < n for i in p)]
 
 
-def expand(m, v, check_positions=None, kw=None, stats=None):
+def expand(m, v, check_positions=None, kw=None, stats=None, repair=True):
     """All valid neighbours of canonical valid v (one same-class substitution + optional repair)."""
     kw = kw or {}
     out = set()
@@ -47,6 +47,8 @@ def expand(m, v, check_positions=None, kw=None, stats=None):
             tried += 1
             if _accepts(m, t, kw):
                 out.add(t)
+                continue
+            if not repair:
                 continue
             for ps in cps:
                 if i in ps:
@@ -92,13 +94,27 @@ def valid_set(name, m, tier, nseeds=None, check_positions=None, kw=None, cap=Non
             nodes[v] = 0
     stats = {'seeds': len(nodes), 'edges': 0, 'tried': 0}
     frontier = list(nodes)
+    # slow validators (registry lookups of ~4 ms): bound the number of expanded nodes, and say so
+    import time
+    budget = None
+    if frontier:
+        t0 = time.perf_counter()
+        for _ in range(5):
+            _accepts(m, frontier[0], kw)
+        if (time.perf_counter() - t0) / 5 > 0.0005:
+            budget = 6 if depth == 1 and cap <= 5000 else 40
+            stats['slow_validator_nodes_expanded_max'] = budget
     for d in range(1, depth + 1):
         nxt = []
         for v in frontier:
             if len(nodes) >= cap:
                 stats['cap_hit'] = cap
                 break
-            nb = expand(m, v, check_positions, kw, stats)
+            if budget is not None:
+                if budget <= 0:
+                    break
+                budget -= 1
+            nb = expand(m, v, check_positions, kw, stats, repair=budget is None)
             stats['edges'] += len(nb)
             for t in sorted(nb):
                 if t not in nodes:
